@@ -117,11 +117,11 @@ def run(case, j):
     if cap.cov and cap.ker:
         j.note("captured_matrices", len(cap.cov) + len(cap.ker))
         wk = pc.spectrum(cap.ker[1 if case.get("past") and len(cap.ker) > 1 else 0])
-        j.close("captured modified Gram matrix has the spectrum of the oracle's K~", wk[: len(w)], w, 1e-8 * w[0])
+        j.close("captured modified Gram matrix has the spectrum of the oracle's K~", wk[: len(w)], w, 1e-7 * w[0])
         wc = pc.spectrum(cap.cov[1 if case.get("past") and len(cap.cov) > 1 else 0])
         r = min(len(wc), len(wk))
-        j.close("modified covariance and modified Gram matrix share their non-zero spectrum", wc[:r], wk[:r], 1e-8 * w[0])
-        j.ok("spectra beyond the common size vanish", float(np.abs(wc[r:]).max(initial=0)) <= 1e-8 * w[0] and float(np.abs(wk[r:]).max(initial=0)) <= 1e-8 * w[0])
+        j.close("modified covariance and modified Gram matrix share their non-zero spectrum", wc[:r], wk[:r], 1e-7 * w[0])
+        j.ok("spectra beyond the common size vanish", float(np.abs(wc[r:]).max(initial=0)) <= 1e-7 * w[0] and float(np.abs(wk[r:]).max(initial=0)) <= 1e-7 * w[0])
 
     # --- per-fit reported spectrum
     views = {}
